@@ -907,7 +907,11 @@ fn set_span_unit_value(
     mut span: Span,
 ) -> Result<Span, Error> {
     if unit <= Unit::Hour {
-        let result = span.try_units_ranged(unit, value).with_context(|| {
+        // A bigger unit that exceeded its limit may have been spilled into
+        // this unit (see below), so add to whatever is there.
+        let total = value
+            .try_checked_add("unit value", span.get_units_ranged(unit))?;
+        let result = span.try_units_ranged(unit, total).with_context(|| {
             err!(
                 "failed to set value {value:?} \
                  as {unit} unit on span",
